@@ -211,8 +211,14 @@ def check_property(p, tier, r=None, want_cex=False, route='parser'):
     if r is not None:
         r.count('transitions')
     try:
-        outs = canonical_form(obj)
+        first = canonical_form(obj)
+        n_first = len(first)
+        if not (n_first == 1 and first[0] is obj):
+            first.clear()  # the list belongs to the caller (e.g. a work-list loop that pops every entry)
+        outs = canonical_form(obj)  # what a later caller gets for the same property
         louts = [absyn.lift(o) for o in outs]
+        if r is not None:
+            r.count('transitions')
     except Exception as e:  # noqa: BLE001
         return [('canonical_form raised ' + type(e).__name__, f'{text}: {e}')]
     if r is not None:
